@@ -20,8 +20,8 @@ import (
 
 func init() {
 	Register(&Rule{ID: "R-CNT-1", Props: []string{"C05"}, Floor: 11,
-		Doc:      "in Processor.ExecuteStatement every argument of FormatCount (the \"N record(s) …\" log lines) and every value stored into Transaction.AffectedRows originates — through phi nodes, element loads and additions only — from the count result (#1, int or []int) of a statement function (signature (*FileInfo|[]*FileInfo, int|[]int, error)); sites inside a lib/query helper that is handed the count (e.g. one helper shared by the INSERT and REPLACE arms) are judged per call of the helper with its parameters replaced by the arguments; a store to AffectedRows and the log line of the same arm derive from the same call; constants other than the loop-initial 0 (and the literal 1 of RENAME COLUMN) do not enter",
-		Controls: []string{"CtlCountFromElsewhere", "CtlCountHelperOffByOne"},
+		Doc:      "in Processor.ExecuteStatement every argument of FormatCount (the \"N record(s) …\" log lines) and every value stored into Transaction.AffectedRows originates — through phi nodes, element loads, additions and the int result of a lib/query helper that computes it from its arguments (judged with the helper's parameters replaced by the arguments of the call) only — from the count result (#1, int or []int) of a statement function (signature (*FileInfo|[]*FileInfo, int|[]int, error)); sites inside a lib/query helper that is handed the count (e.g. one helper shared by the INSERT and REPLACE arms) are judged per call of the helper with its parameters replaced by the arguments; a store to AffectedRows and the log line of the same arm derive from the same call; constants other than the loop-initial 0 (and the literal 1 of RENAME COLUMN) do not enter",
+		Controls: []string{"CtlCountFromElsewhere", "CtlCountHelperOffByOne", "CtlCountTotalHelperCountsFiles"},
 		Run:      ruleCnt1})
 }
 
@@ -62,15 +62,82 @@ type fxCnt struct {
 // recordTableChange(fileInfo, cnt, verb)); nil when the site is in the
 // statement dispatcher itself.
 func fxCountOrigin(v ssa.Value, subst map[*ssa.Parameter]ssa.Value) *fxCnt {
+	return fxCountOriginAt(v, subst, 0)
+}
+
+// fxCountHelper: call is a static call of a lib/query (or control) function with a
+// body that is not itself a statement function — a helper whose result #idx may
+// be a count computed from what it was handed (e.g. the total of the per-file
+// counts). Returns the helper, or nil.
+func fxCountHelper(call *ssa.Call, idx int) *ssa.Function {
+	H := core.StaticCallee(call)
+	if H == nil || H.Blocks == nil || H.Pkg == nil || fxIsStmtFn(H) {
+		return nil
+	}
+	path := H.Pkg.Pkg.Path()
+	if path != core.ModPath+"/lib/query" && !strings.HasSuffix(path, core.ControlPkg) {
+		return nil
+	}
+	res := H.Signature.Results()
+	if idx >= res.Len() {
+		return nil
+	}
+	if b, ok := res.At(idx).Type().Underlying().(*types.Basic); !ok || b.Kind() != types.Int {
+		return nil
+	}
+	return H
+}
+
+func fxCountOriginAt(v ssa.Value, subst map[*ssa.Parameter]ssa.Value, depth int) *fxCnt {
 	r := &fxCnt{calls: map[*ssa.Call]bool{}}
 	seen := map[ssa.Value]bool{}
 	var walk func(v ssa.Value)
+	// the int result #idx of a helper: the leaves of what the helper returns, with
+	// its parameters replaced by the arguments of this call (two levels)
+	intoHelper := func(call *ssa.Call, idx int) bool {
+		H := fxCountHelper(call, idx)
+		if H == nil || depth >= 2 {
+			return false
+		}
+		inner := map[*ssa.Parameter]ssa.Value{}
+		for p, a := range subst {
+			inner[p] = a
+		}
+		for i, a := range call.Common().Args {
+			if i < len(H.Params) {
+				if _, rec := inner[H.Params[i]]; rec {
+					return false // recursion: the parameter is already bound
+				}
+				inner[H.Params[i]] = a
+			}
+		}
+		rets := core.Returns(H)
+		if len(rets) == 0 {
+			return false
+		}
+		for _, ret := range rets {
+			if idx >= len(ret.Results) {
+				return false
+			}
+			o := fxCountOriginAt(ret.Results[idx], inner, depth+1)
+			for k := range o.calls {
+				r.calls[k] = true
+			}
+			r.consts = append(r.consts, o.consts...)
+			r.other = append(r.other, o.other...)
+		}
+		return true
+	}
 	walk = func(v ssa.Value) {
 		if seen[v] {
 			return
 		}
 		seen[v] = true
 		switch x := v.(type) {
+		case *ssa.Call:
+			if !intoHelper(x, 0) {
+				r.other = append(r.other, v)
+			}
 		case *ssa.Parameter:
 			if a, ok := subst[x]; ok {
 				walk(a)
@@ -97,6 +164,9 @@ func fxCountOrigin(v ssa.Value, subst map[*ssa.Parameter]ssa.Value) *fxCnt {
 		case *ssa.Extract:
 			if call, ok := x.Tuple.(*ssa.Call); ok && x.Index == 1 && fxIsStmtFn(core.StaticCallee(call)) {
 				r.calls[call] = true
+				return
+			}
+			if call, ok := x.Tuple.(*ssa.Call); ok && intoHelper(call, x.Index) {
 				return
 			}
 			r.other = append(r.other, v)
